@@ -1995,7 +1995,9 @@ func (s *SelectStatement) GroupByOffset() (time.Duration, error) {
 func (s *SelectStatement) SetTimeRange(start, end time.Time) error {
 	cond := fmt.Sprintf("time >= '%s' AND time < '%s'", start.UTC().Format(time.RFC3339Nano), end.UTC().Format(time.RFC3339Nano))
 	if s.Condition != nil {
-		cond = fmt.Sprintf("%s AND %s", s.rewriteWithoutTimeDimensions(), cond)
+		// The old condition is one operand of the AND: without parentheses a
+		// top-level OR in it would capture the new bounds in its last branch.
+		cond = fmt.Sprintf("(%s) AND %s", s.rewriteWithoutTimeDimensions(), cond)
 	}
 
 	expr, err := NewParser(strings.NewReader(cond)).ParseExpr()
